@@ -253,8 +253,8 @@ def axi_bench(name, rmw=False, base=0, wdepth=4, rdepth=4, dw=32, aw=8, idw=2, s
 
 
 CONFIGS = {
-    "axi_d2_base64": (dict(wdepth=2, rdepth=2, base=64), 16, 22, "qt"),
-    "axi_rmw_base64": (dict(rmw=True, base=64), 16, 22, "qt"),
+    "axi_d2_base64": (dict(wdepth=2, rdepth=2, base=64), 14, 20, "qt"),
+    "axi_rmw_base64": (dict(rmw=True, base=64), 14, 20, "qt"),
     "axi_d4": (dict(), 0, 22, "t"),
     "axi_d16": (dict(wdepth=16, rdepth=16), 0, 20, "t"),
     "axi_rmw_d2": (dict(rmw=True, wdepth=2, rdepth=2), 0, 20, "t"),
@@ -274,7 +274,7 @@ def run(ctx):
         if ctx.only and not ctx.only.search(n):
             continue
         if ctx.tier == "quick" and "q" in tiers:
-            ctx.add(n, kq, timeout=600, min_K=kq - 3, first_chunk=10, chunk=1, cover_required=False)
+            ctx.add(n, kq, timeout=600, min_K=kq - 1, first_chunk=10, chunk=1, cover_required=False)
         elif ctx.tier == "thorough":
             ctx.add(n, kt, timeout=3300, min_K=(kq or 16) - 2, first_chunk=10, chunk=1, cover_required=False)
     ctx.run()
